@@ -1,6 +1,6 @@
 (** C03 -- wire codec lossless, matches the SCION format, never truncates silently:
     property theorems only. *)
-From Sci Require Import Wire.Codec Wire.Spec_C03 Wire.Proofs_C03 Wire.BitFieldProofs Wire.ChecksumProofs Wire.RoundTripProofs Wire.ChecksumVerify Wire.LengthProofs Wire.SpecAgreeProofs Wire.EncodeLengthProofs Wire.AddrRoundTrip Wire.HeaderRoundTrip Wire.PacketRoundTrip Wire.StdPathRoundTrip Wire.PacketRoundTripStd Wire.ScmpRoundTrip Wire.PacketRoundTripAll Wire.SpecDecodeAgree Wire.EncodeOk.
+From Sci Require Import Wire.Codec Wire.Spec_C03 Wire.Proofs_C03 Wire.BitFieldProofs Wire.ChecksumProofs Wire.RoundTripProofs Wire.ChecksumVerify Wire.LengthProofs Wire.SpecAgreeProofs Wire.EncodeLengthProofs Wire.AddrRoundTrip Wire.HeaderRoundTrip Wire.PacketRoundTrip Wire.StdPathRoundTrip Wire.PacketRoundTripStd Wire.ScmpRoundTrip Wire.PacketRoundTripAll Wire.SpecDecodeAgree Wire.EncodeOk Wire.CanonicalLayers.
 Local Open Scope N_scope.
 
 (** A model that cannot be represented on the wire is rejected: whenever the encoder's gate
@@ -349,6 +349,112 @@ Theorem decode_encode :
     decode_packet kind (encode_packet_al p al_host al) = Ok (canon p (header_size (p_hdr p)), []).
 Proof. exact packet_roundtrip_full. Qed.
 Print Assumptions decode_encode.
+
+(** CANONICAL BYTES RE-ENCODE TO THEMSELVES, layer by layer ("encode (decode b) = b"): for every
+    byte string [v] of the layer's size that is canonical -- the reserved bits the decoder does not
+    look at are zero, version 0 -- decoding [v] and encoding the decoded fields into ANY buffer of
+    that size (dirty or zeroed) returns exactly [v]:
+    (1) info field (8 bytes; canonical = reserved byte zero), (2) hop field (12 bytes; every byte
+    is a field), (3) the whole ONE-HOP PATH (32 bytes = info field + two hop fields),
+    (4) the standard path meta header (CurrINF / CurrHF / RSV / three segment lengths: bit fields;
+    canonical = RSV zero), (5) the common header (12 bytes: version, traffic class, flow id, next
+    header, HdrLen, PayloadLen, path type, the two address nibbles, RSV; canonical = version 0 and
+    RSV zero; the fields are given as the values the accessors read from [v]), (6) the UDP
+    datagram (ports, Length, Checksum, data; canonical = Length is the datagram's length and the
+    checksum field is the checksum the encoder computes over the datagram with a zeroed field),
+    (7) a raw payload, (8) the data of an unsupported path and the empty path, (9) the address
+    header (two ISD-AS numbers, each written as ISD + AS, and the two host addresses), (10) a
+    decoded host address re-encodes to the bytes it was read from (canonical = a service address's
+    padding is zero), (11) the WHOLE STANDARD PATH -- meta header, info field array and hop field
+    array through the encoder's loops -- given that the model's segments are, element by element,
+    what the field decoders read from [V] (canonical = meta RSV and every info field's reserved
+    byte zero, length exact), and (12) the COMPOSITION along the packet layout: if the common header,
+    the address header, the path and the payload of a model each re-encode (into any buffer of their
+    size) to the corresponding slice of a byte string, the encoder's output for the whole packet IS
+    that byte string (the layers write disjoint regions of the zeroed buffer in order).
+    PARTIAL with respect to [decode_packet k b = Ok (m, []) -> canonical b -> encode_packet m = b]
+    for whole packets.  The precondition that makes the whole statement true is: [b] is accepted by
+    the strict reader ([spec_decode k b = Some m]: consistent HdrLen / PayloadLen / UDP Length, no
+    trailing bytes, all reserved bits and the service-address padding zero, segment lengths a
+    non-zero prefix), its L4 checksum is the one the encoder computes, the path indices are in range
+    (outside the open class C03-decoder-accepts-unencodable-path-index: the encoder's gate refuses
+    such a model) and an SCMP error quote fits the 1232-byte budget; the class
+    C03-noncanonical-enum-tag does not arise in this direction (the decoder never produces a
+    catch-all variant for a known number).  Missing steps: deriving the
+    hypotheses of (5), (9), (11) and (12) from [decode_packet k b = Ok (m, [])] and [canonical b]
+    (inversion of the decoder: header layout, the segment split of a standard path), and the SCMP
+    message layer.  Canonical re-encoding of whole packets
+    is evaluated on the implementation by the decoder stream of the check (Cases_C03, CD cases:
+    every canonical byte string must re-encode to itself). *)
+Theorem encode_decode_canonical_partial :
+  (forall (v : bytes) (i : info_f) (buf : bytes),
+     bytes_ok v = true -> blen v = 8 -> be v 1 1 = 0 -> decode_info v = Ok i -> blen buf = 8 -> encode_info i buf = v)
+  /\ (forall (v : bytes) (h : hop_f) (buf : bytes),
+        bytes_ok v = true -> blen v = 12 -> decode_hop v = Ok h -> blen buf = 12 -> encode_hop h buf = v)
+  /\ (forall (v : bytes) (p : dp_path) (buf : bytes),
+        bytes_ok v = true -> blen v = 32 -> be v 1 1 = 0 -> decode_onehop v = Ok p -> blen buf = 32 -> encode_path p buf = v)
+  /\ (forall (v buf : bytes),
+        bytes_ok v = true -> blen v = 4 -> bytes_ok buf = true -> blen buf = 4 ->
+        let m := be v 0 4 in (m / 2 ^ 18) mod 64 = 0 ->
+        apply_writes (meta_writes (m / 2 ^ 30) ((m / 2 ^ 24) mod 64) ((m / 2 ^ 12) mod 64) ((m / 2 ^ 6) mod 64) (m mod 64)) buf = v)
+  /\ (forall (v buf : bytes) (h : pkt_hdr) (units psize : N),
+        bytes_ok v = true -> blen v = 12 -> bytes_ok buf = true -> blen buf = 12 ->
+        h_tc h < 256 -> h_flow h < 2 ^ 20 -> h_nh h < 256 -> units < 256 -> psize < 65536 ->
+        path_type_num (h_path h) < 256 -> host_nibble (h_dst_host h) < 16 -> host_nibble (h_src_host h) < 16 ->
+        hv_version v = Ok 0 -> rd v CommonHeader_RSV_RNG 16 = Ok 0 ->
+        hv_traffic_class v = Ok (h_tc h) -> hv_flow_id v = Ok (h_flow h) -> hv_next_header v = Ok (h_nh h) ->
+        hv_header_len v = Ok (units * 4) -> hv_payload_len v = Ok psize -> hv_path_type v = Ok (path_type_num (h_path h)) ->
+        hv_dst_addr_type v = Ok (host_nibble (h_dst_host h)) -> hv_src_addr_type v = Ok (host_nibble (h_src_host h)) ->
+        encode_common h units psize buf = v)
+  /\ (forall (h : pkt_hdr) (v buf : bytes) (sp dp : N) (d : bytes) (hs : N) (al_host al : bool),
+        bytes_ok v = true -> 8 <= blen v -> blen v <= 65535 -> be v 4 2 = blen v ->
+        decode_udp v = Ok (PL_Udp sp dp d) -> blen buf = blen v ->
+        be v 6 2 = l4_checksum h PROTO_UDP (put 6 [0; 0] v) al_host al ->
+        encode_payload h (PL_Udp sp dp d) hs al_host al buf = v)
+  /\ (forall (h : pkt_hdr) (v buf : bytes) (hs : N) (al_host al : bool),
+        blen buf = blen v -> encode_payload h (PL_Raw v) hs al_host al buf = v)
+  /\ (forall (v buf : bytes) (pt : N), blen buf = blen v ->
+        encode_path (DP_Unsupported pt v) buf = v /\ (blen v = 0 -> encode_path DP_Empty buf = v))
+  /\ (forall (v buf : bytes) (h : pkt_hdr),
+        bytes_ok v = true ->
+        let dl := host_size (h_dst_host h) in let sl_ := host_size (h_src_host h) in
+        dl <= 16 -> sl_ <= 16 -> blen v = 16 + dl + sl_ -> blen buf = blen v ->
+        h_dst_ia h = be v 0 8 -> h_src_ia h = be v 8 8 ->
+        host_bytes (h_dst_host h) = sl v 16 dl -> host_bytes (h_src_host h) = sl v (16 + dl) sl_ ->
+        encode_addr h buf = v)
+  /\ (forall (nib : N) (raw : bytes) (x : host_addr),
+        bytes_ok raw = true -> host_addr_decode nib raw = Some x ->
+        (forall s, x = HA_Svc s -> sl raw 2 2 = [0; 0]) -> host_bytes x = raw)
+  /\ (forall (V buf : bytes) (ci ch : N) (segs : list segment),
+        bytes_ok V = true -> bytes_ok buf = true -> blen buf = blen V ->
+        let m := be V 0 4 in
+        let s0 := seg_len8 segs 0 in let s1 := seg_len8 segs 1 in let s2 := seg_len8 segs 2 in
+        let ni := info_field_count s0 s1 s2 in let nh := hop_field_count s0 s1 s2 in
+        blen V = 4 + ni * 8 + nh * 12 ->
+        (m / 2 ^ 18) mod 64 = 0 -> ci = m / 2 ^ 30 -> ch = (m / 2 ^ 24) mod 64 ->
+        s0 = (m / 2 ^ 12) mod 64 -> s1 = (m / 2 ^ 6) mod 64 -> s2 = m mod 64 ->
+        N.of_nat (length (map s_info segs)) = ni -> N.of_nat (length (std_hops segs)) = nh ->
+        (forall k x, nth_error (map s_info segs) k = Some x ->
+           decode_info (sub V (4 + N.of_nat k * 8) (4 + N.of_nat k * 8 + 8)) = Ok x /\ be V (4 + N.of_nat k * 8 + 1) 1 = 0) ->
+        (forall k x, nth_error (std_hops segs) k = Some x ->
+           decode_hop (sub V (4 + ni * 8 + N.of_nat k * 12) (4 + ni * 8 + N.of_nat k * 12 + 12)) = Ok x) ->
+        encode_path (DP_Std ci ch segs) buf = V)
+  /\ (forall (p : packet) (al_host al : bool) (cv av xv pv : bytes),
+        let h := p_hdr p in let hs := header_size h in let ps := payload_size (p_pl p) hs in
+        addr_size h = 16 + host_size (h_dst_host h) + host_size (h_src_host h) -> host_size (h_dst_host h) <= 16 ->
+        blen (host_bytes (h_dst_host h)) = host_size (h_dst_host h) -> blen (host_bytes (h_src_host h)) = host_size (h_src_host h) ->
+        blen cv = 12 -> blen av = addr_size h -> blen xv = path_size (h_path h) -> blen pv = ps ->
+        (forall B, bytes_ok B = true -> blen B = 12 -> encode_common h (trunc 8 (hs / 4)) (trunc 16 ps) B = cv) ->
+        (forall B, bytes_ok B = true -> blen B = blen av -> encode_addr h B = av) ->
+        (forall B, bytes_ok B = true -> blen B = blen xv -> encode_path (h_path h) B = xv) ->
+        (forall B, bytes_ok B = true -> blen B = blen pv -> encode_payload h (p_pl p) hs al_host al B = pv) ->
+        encode_packet_al p al_host al = cv ++ av ++ xv ++ pv).
+Proof.
+  refine (conj encode_decode_info (conj encode_decode_hop (conj encode_decode_onehop (conj encode_decode_meta
+        (conj encode_decode_common (conj encode_decode_udp (conj encode_decode_raw_payload (conj encode_decode_plain_paths
+        (conj encode_decode_addr (conj host_bytes_of_decoded (conj encode_decode_stdpath compose_packet))))))))))).
+Qed.
+Print Assumptions encode_decode_canonical_partial.
 
 (** non-vacuity: a UDP packet over a two-segment standard path between an IPv4 and a service address *)
 Example decode_encode_example :
